@@ -44,7 +44,11 @@ class CanDynamicSchema: public ICanSchema {
             return std::nullopt;
         }
 
-        auto decoded = dynamic_schema_.DecodeJson(msg_name.value(), std::vector<std::uint8_t>{frame.data.begin(), frame.data.end()});
+        auto msg_type = GetType(msg_name.value());
+        if (!msg_type.has_value()) {
+            return std::nullopt;
+        }
+        auto decoded = dynamic_schema_.DecodeJson(msg_type.value(), std::vector<std::uint8_t>{frame.data.begin(), frame.data.end()});
 
         if (!decoded.has_value()) {
             return std::nullopt;
@@ -54,7 +58,11 @@ class CanDynamicSchema: public ICanSchema {
     }
 
     std::optional<frame_t> Encode(std::string msg_name, json j) override {
-        auto encoded = dynamic_schema_.EncodeJson(msg_name, j);
+        auto msg_type = GetType(msg_name);
+        if (!msg_type.has_value()) {
+            return std::nullopt;
+        }
+        auto encoded = dynamic_schema_.EncodeJson(msg_type.value(), j);
 
         if (!encoded.has_value()) {
             return std::nullopt;
@@ -92,6 +100,22 @@ class CanDynamicSchema: public ICanSchema {
 
                 if (sid_match && bus_match) {
                     return impl.name;
+                }
+            }
+
+            return std::nullopt;
+        }
+
+        // The struct a binding carries: a binding is named after its struct unless it is renamed (impl can for S as Name)
+        std::optional<std::string> GetType(std::string msg_name) {
+            auto impls = dynamic_schema_.GetImpls();
+            for (const auto& impl: impls) {
+                if (impl.protocol != "can") {
+                    continue;
+                }
+
+                if (impl.name == msg_name) {
+                    return impl.type;
                 }
             }
 
